@@ -357,6 +357,14 @@ impl<H: Host> ZXController<H> {
         self.write_7ffd(val);
     }
 
+    /// Restores the position inside the frame from a snapshot. The screen is rendered
+    /// incrementally up to the current clock and can't follow the clock backwards,
+    /// so it starts the frame over
+    pub(crate) fn restore_frame_clocks(&mut self, clocks: usize) {
+        self.frame_clocks = clocks % self.machine.specs().clocks_frame;
+        self.screen.restart_frame();
+    }
+
     pub fn read_7ffd(&self) -> u8 {
         self.current_port_7ffd
     }
